@@ -326,6 +326,100 @@ Fixpoint mon_hfp_lapse (t : Z) (H : Z) (bound : Z) (prev : list tobs) (fs : list
       ok && mon_hfp_lapse t1 H b2 cur r
   end.
 
+(** C01 / C02 / C10, the positive side of coalescing and caching, from the
+    history alone.  [owner]: the request known to be the fetcher of the key's
+    current resident entry (it arrived and was labelled fetching; an eviction,
+    purge or restart detaches the entry).  [waits]: pairs (w, j): request w
+    arrived while j was that fetcher and was parked.  [fresh]: the response the
+    owner's cacheable completion installed in the resident entry, with its
+    second and lifetime.
+    (a) when fetcher j is released, every request parked behind it is released
+        in the same step: answered as a hit from j's response when that is
+        cacheable, and otherwise on its own way to the upstream labelled
+        hitForPass;
+    (b) while the resident entry holds a fresh response, every GET is answered
+        from it as a hit -- whatever the store does. *)
+Fixpoint mon_coalesce (t : Z) (owner : option nat) (waits : list (nat * nat)) (fresh : option (rid * Z * Z))
+         (prev : list tobs) (fs : list frame) : bool :=
+  match fs with
+  | [] => true
+  | f :: r =>
+      let t1 := match f_op f with OpTick d => (t + d)%Z | _ => t end in
+      let cur := f_threads f in
+      let newi := length prev in
+      let rel := match f_op f with
+                 | OpRelease i o => match nth_obs prev i with
+                                    | Some (TUpstream LFetching) => Some (i, o)
+                                    | _ => None
+                                    end
+                 | _ => None
+                 end in
+      let ok_wait :=
+        match rel with
+        | Some (j, o) =>
+            forallb (fun wf =>
+                       if Nat.eqb (snd wf) j then
+                         match nth_obs cur (fst wf), cacheable o with
+                         | Some (TDone LHit (Some rr) _), Some (_, r0) => Nat.eqb rr r0
+                         | Some (TUpstream LHitForPass), None => true
+                         | _, _ => false
+                         end
+                       else true) waits
+        | None => true
+        end in
+      let ok_hit :=
+        match f_op f, fresh with
+        | OpArrive false, Some (rr, c, ttl) =>
+            if ((t1 / 1000) <=? c + ttl)%Z
+            then match nth_obs cur newi with
+                 | Some (TDone LHit (Some r1) _) => Nat.eqb r1 rr
+                 | _ => false
+                 end
+            else true
+        | _, _ => true
+        end in
+      let owner_released := match rel, owner with Some (j, _), Some j' => Nat.eqb j j' | _, _ => false end in
+      let fresh1 :=
+        match f_op f with
+        | OpEvict | OpRestart | OpPurge _ => None
+        | OpArrive false =>
+            match nth_obs cur newi with
+            | Some (TDone LHit _ _) => fresh
+            | _ => None
+            end
+        | _ => if owner_released
+               then match rel with
+                    | Some (_, o) => match cacheable o with Some (ttl, r0) => Some (r0, (t1 / 1000)%Z, ttl) | None => None end
+                    | None => fresh
+                    end
+               else fresh
+        end in
+      let waits1 :=
+        match f_op f with
+        | OpRestart => []
+        | OpArrive false =>
+            match nth_obs cur newi, owner with
+            | Some TParked, Some j => (newi, j) :: waits
+            | _, _ => waits
+            end
+        | _ => match rel with
+               | Some (j, _) => filter (fun wf => negb (Nat.eqb (snd wf) j)) waits
+               | None => waits
+               end
+        end in
+      let owner1 :=
+        match f_op f with
+        | OpEvict | OpRestart | OpPurge _ => None
+        | OpArrive false =>
+            match nth_obs cur newi with
+            | Some (TUpstream LFetching) => Some newi
+            | _ => owner
+            end
+        | _ => if owner_released then None else owner
+        end in
+      ok_wait && ok_hit && mon_coalesce t1 owner1 waits1 fresh1 cur r
+  end.
+
 (** C18 / C10: when a purge is issued while nothing is in flight or parked,
     the store holds nothing afterwards if its delete succeeded, and — whenever
     the store holds nothing, also after a failed delete — the next request goes
@@ -401,8 +495,8 @@ Fixpoint mon_wake (prev : list tobs) (fs : list frame) : bool :=
 Definition mon_all (c : fl_case) : list bool :=
   let fs := fc_frames c in
   let H := if (fc_hfp c <=? 0)%Z then default_hfp else fc_hfp c in
-  [ mon_c01 1 fs && mon_wake [] fs;
-    mon_final fs;
+  [ mon_c01 1 fs && mon_wake [] fs && mon_coalesce (fc_t0 c) None [] None [] fs;
+    mon_final fs && mon_coalesce (fc_t0 c) None [] None [] fs;
     mon_lifecycle [] fs;
     mon_fresh (fc_t0 c) [] [] fs && mon_hfp_lapse (fc_t0 c) H 0 [] fs;
     mon_hfp (fc_t0 c) H (fc_store c) true false None None true [] fs && mon_hfp_lapse (fc_t0 c) H 0 [] fs;
